@@ -127,14 +127,14 @@ def run(ctx):
         for pair in pairs:
             for mode in ("share", "own"):
                 cases.append({"arr": make_arr(rng, key, list(pair), mode), "sampled": ctx.quick})
-        for count, number in ((3, 1500 if ctx.quick else 40000), (4, 700 if ctx.quick else 20000)):
+        for count, number in ((3, 1500 if ctx.quick else 15000), (4, 700 if ctx.quick else 5000)):
             for _ in range(number):
                 cases.append({"arr": make_arr(rng, key, [rng.choice(pool) for _ in range(count)]), "sampled": True})
         if key[1]:
             # hybrids around the origin: a protocluster whose core spans the origin, partners whose cores contain its
             # defining gene (shared defining gene), and one or two unrelated protoclusters anywhere
             crossing = [s for s in pool if len(s["core"]["parts"]) > 1]
-            for _ in range(800 if ctx.quick else 20000):
+            for _ in range(800 if ctx.quick else 8000):
                 first = rng.choice(crossing)
                 gene_at = first["core"]["parts"][0][0]
                 partners = [s for s in pool if any(a <= gene_at < b for a, b in s["core"]["parts"])]
